@@ -266,7 +266,8 @@ pub fn generate(rng: &mut Rng, fault_free: bool) -> K18 {
             }
         }
     }
-    let bulk_orbit = !fault_free && rng.chance(0.004);
+    // (VERIF_C18_ORBIT=1 forces the mode for every faulted run: debugging aid)
+    let bulk_orbit = !fault_free && (rng.chance(0.004) || std::env::var("VERIF_C18_ORBIT").is_ok());
     let bulk = if bulk_orbit { 4_300 + rng.usize_below(400) } else if !fault_free && rng.chance(0.006) { 10_000 + rng.usize_below(400) } else { 0 };
     let filter_time = if bulk > 0 || many { 1_000_000 } else { filter_time };
     if bulk > 0 {
@@ -457,7 +458,10 @@ pub fn compile(sc: &K18) -> KChild {
                 _ if sc.bulk_orbit => {
                     let th = 0.004 * i as f64;
                     let f = sc.rx.0.to_radians().cos() / 35.0f64.to_radians().cos();
-                    let (yz, xz) = wire::cpr_encode(sc.rx.0 + (0.1 + 0.12 * th.sin()) * f, sc.rx.1 + 0.1 + 0.12 * th.cos(), i % 2 == 0);
+                    // the circle lies in the far west of the view, on rows between those of the
+                    // markers and of the other aircraft: its label (which runs a degree to the
+                    // east) never touches another label
+                    let (yz, xz) = wire::cpr_encode(sc.rx.0 + (0.375 + 0.07 * th.sin()) * f, sc.rx.1 - 1.6 + 0.1 * th.cos(), i % 2 == 0);
                     wire::me_airborne_position(11, 0, 0, wire::ac12_q(12_000), false, i % 2 == 0, yz, xz)
                 }
                 _ => wire::me_velocity(1, 0, wire::sub_ground_speed(0, 1 + (i % 900) as u16, 0, 1 + (i * 7 % 900) as u16), 0, 0, 1 + (i % 300) as u16, 0, 3),
